@@ -589,8 +589,8 @@ func main() {
 	}
 	// corpus: short histories, one long history with small batches, then random ones
 	history(c, c.Rng.Fork("short"), 2, 2, "history-short")
-	history(c, c.Rng.Fork("long"), c.Scale(25, 120), 4, "history-long")
-	n := c.Scale(10, 300)
+	history(c, c.Rng.Fork("long"), c.Scale(15, 120), 4, "history-long")
+	n := c.Scale(7, 250)
 	for i := 0; i < n; i++ {
 		history(c, c.Rng.Fork(fmt.Sprintf("h%d", i)), c.Rng.Range(3, 9), 8, "history")
 	}
